@@ -256,9 +256,20 @@ func (s *Shard) UpdatePoints(points []models.Point) ([]uuid.UUID, error) {
 		defer stages.Wait()
 		defer cancel()
 		// ---------------------------
+		// A batch may name the same point more than once. The merges are
+		// applied one after the other on the point store, but the indices work
+		// concurrently and expect a single change per node, so they are handed
+		// the net change when the last occurrence has been merged.
+		occurrences := make(map[uuid.UUID]int, len(points))
+		for _, point := range points {
+			occurrences[point.Id]++
+		}
+		firstPreviousData := make(map[uuid.UUID][]byte)
+		// ---------------------------
 		pointsQ := utils.ProduceWithContext(ctx, points)
 		indexQ, indexQErrC := utils.TransformWithContext(ctx, pointsQ, func(point models.Point) (ipc index.IndexPointChange, skip bool, err error) {
 			// ---------------------------
+			occurrences[point.Id]--
 			sp, err := pointstore.GetPointByUUID(pointsBucket, point.Id)
 			if err == pointstore.ErrPointDoesNotExist {
 				// Point does not exist, we can skip it, it may reside in
@@ -311,6 +322,13 @@ func (s *Shard) UpdatePoints(points []models.Point) ([]uuid.UUID, error) {
 			ipc.NewData = finalNewData
 			// ---------------------------
 			updatedIds = append(updatedIds, point.Id)
+			// ---------------------------
+			if first, ok := firstPreviousData[point.Id]; ok {
+				ipc.PreviousData = first
+			} else if occurrences[point.Id] > 0 {
+				firstPreviousData[point.Id] = sp.Data
+			}
+			skip = occurrences[point.Id] > 0
 			// ---------------------------
 			return
 		})
